@@ -176,7 +176,76 @@ func VerifC02TotalHosts() {
 	}
 }
 
+// VerifC02StaleHandles: a SearchParams handle stays usable whatever happens to the URL it came from:
+// after the URL got another parameter object (SetSearchParams with a clone, with another URL's object,
+// with a fresh clone of a clone), after its query was cleared or replaced, after it was cloned or used
+// as a base - every method of the old handle, of the new one and of clones of both returns normally.
+func VerifC02StaleHandles() {
+	p := symbolicParser()
+	starts := []string{"http://h/p?a=1&b=2#f", "http://h/p", "a:b?x=y", "file:///C:/d?q"}
+	u, err := p.Parse(starts[vnd.Pick(len(starts))])
+	if err != nil {
+		return
+	}
+	old := u.SearchParams()
+	if vnd.Bool() {
+		old.Append("k", "v")
+	}
+	switch vnd.Pick(7) {
+	case 0:
+		u.SetSearchParams(old.Clone())
+	case 1:
+		o, oerr := p.Parse("http://x/?y=1")
+		if oerr == nil {
+			u.SetSearchParams(o.SearchParams())
+		}
+	case 2:
+		u.SetSearchParams(old.Clone().Clone())
+	case 3:
+		u.SetSearch("")
+	case 4:
+		u.SetSearch("n=1&m")
+	case 5:
+		c := u.Clone()
+		c.SearchParams().Append("c", "1")
+	case 6:
+		r, rerr := u.Parse("?z")
+		if rerr == nil {
+			r.SearchParams().Sort()
+		}
+	}
+	vnd.Cover("stale-handle-used", true)
+	op := vnd.Pick(8)
+	for _, h := range []*SearchParams{old, u.SearchParams(), old.Clone(), u.SearchParams().Clone()} {
+		switch op {
+		case 0:
+			_ = h.String()
+		case 1:
+			h.Append("x", "1")
+		case 2:
+			h.Set("k", "2")
+		case 3:
+			h.Delete("a")
+		case 4:
+			h.Sort()
+			h.SortAbsolute()
+		case 5:
+			_ = h.Has("a")
+			_ = h.Get("k")
+			_ = h.GetAll("b")
+		case 6:
+			h.Iterate(func(p *NameValuePair) { p.Value = p.Value + "!" })
+		case 7:
+			_ = h.Clone().String()
+		}
+	}
+	_ = u.Href(false)
+	_ = old.String()
+	_ = u.SearchParams().String()
+}
+
 func init() {
+	verifHarnesses["VerifC02StaleHandles"] = VerifC02StaleHandles
 	verifHarnesses["VerifC02TotalHosts"] = VerifC02TotalHosts
 	verifHarnesses["VerifC02TotalSchemeTables"] = VerifC02TotalSchemeTables
 	verifHarnesses["VerifC02TotalOps2"] = VerifC02TotalOps2
